@@ -13,6 +13,13 @@ CLAIMS = {
          'for every operand value, flag state, mode, architecture version; frame of dp_sem proved once.',
          'Scope: execute() of the opcode classes with condition passed (C05 covers the failing case) and field ranges as '
          'produced by decode; ADR, MOVT and the decode of operands (C06/C07) are not in these theorems.'),
+ 'C04': ('execute() of B, BL/BLX (immediate), BLX (register), BX, CBZ/CBNZ and the four PC-write primitives (BranchWritePC, BXWritePC, '
+         'ALUWritePC, LoadWritePC) proved equal to the architectural operations for every state, offset, register and PC (incl. wrap '
+         'at 2^32); the offset assembled by every branch encoding (A1, A2, T1-T4, BL/BLX T1/T2) proved to be the sign-extended field '
+         'for every instruction word; PC read value and sequential advance; alignment and link-value consequences.',
+         'Partial: TBB/TBH (needs the memory model, C13), loads/ALU writes to PC of the load/store classes (C02/C03) and the '
+         'whole-step statement "non-branch instructions advance the PC by their length" (composition over every class) are not yet '
+         'theorems. Known finding: CBZ offset scaled by 4 (pinned by the test-suite).'),
  'C05': ('CurrentCond and the 16x16 ConditionPassed table proved for every machine state; every conditional opcode class '
          '(266 of 273, enumerated from the regenerated dispatcher) proved a no-op when its condition fails.',
          'Partial: the whole-step statement (only PC/IT/scratch change) is not yet a theorem; "behaves as the unconditional '
